@@ -9,8 +9,9 @@
      AArch64   xtors      a declared type has at most 1024 xtors: the dispatch of `invoke` is `ADD Xt, Xt, #4*k`
                           (12-bit unsigned immediate, optionally shifted by 12): k <= 1023.  A codata type with
                           1100 destructors is accepted by the front end and its code is rejected by the assembler.
-               substs     a Substitute lists at most 4096 pairs (`ADD X3, X3, #n`, n = copies of one variable - 1);
-                          not a limit of its own: 4096 variables exceed the capacity (256 spill slots) anyway.
+               substs     no guard: `ADD X3, X3, #n` (n = copies of one variable - 1) needs n < 4096, which follows from
+                          `compile = Ok` - every copy gets a temporary and there are fewer than 281 positions
+                          (Proof/CodegenForallLinP.v: targets_bound).
                reach      the routine is shorter than 1 MiB (B.cond / ADR reach +-1 MiB), guaranteed through a
                           two-weight refinement of the size bound of C19 (cg_fine below: 28 + cg_fine_defs 14 74
                           instructions of 4 bytes; Proof/SizeCodegenFine.v, SizeA64Fine.v).  Real limit: a conditional
@@ -18,34 +19,32 @@
                           (whole routine instead of the single branch distance).
                literals   none: MOVZ / MOVN / MOVK synthesise every value from its four half-words.
      RISC-V    xtors      at most 512 xtors per type: `ADDI X1, Xt, 4*k` (12-bit signed): k <= 511.  Real limit.
-               substs     at most 2048 pairs (`ADDI X1, X1, n`); beyond the capacity (14 variables) anyway.
+               substs     no guard (`ADDI X1, X1, n`, n < 2048): fewer than 28 positions.
                literals   64-bit values (`LI`).
-   The statement predicate is parametric in the two bounds and the literal test; Sem/WfGuard.stmt_imm is the instance
-   (SUBST_MAX, lit64). *)
+   The statement predicate is parametric in the literal test. *)
 From Coq Require Import List ZArith NArith String Ascii Bool.
 From SCC Require Import Base.Sexp Lang.AxSyn Lang.AxSize Model.Backend Model.Linearize Model.LinCheck Model.SizeWf
   Sem.LabelGuard Sem.WfGuard.
 Import ListNotations.
 Local Open Scope list_scope.
 
-Fixpoint stmt_immP (sm : N) (lit : Z -> bool) (s : stmt) : bool :=
+Fixpoint stmt_immP (lit : Z -> bool) (s : stmt) : bool :=
   let go := fix go (cls : list (ident * ctx * stmt)) : bool :=
-    match cls with [] => true | (_, _, b) :: r => stmt_immP sm lit b && go r end in
+    match cls with [] => true | (_, _, b) :: r => stmt_immP lit b && go r end in
   match s with
-  | Substitute re next => N.leb (N.of_nat (List.length re)) sm && stmt_immP sm lit next
-  | Literal n _ next => lit n && stmt_immP sm lit next
-  | Op _ _ _ _ next | PrintI64 _ _ next | Let _ _ _ _ next => stmt_immP sm lit next
-  | IfC _ _ _ t e => stmt_immP sm lit t && stmt_immP sm lit e
+  | Literal n _ next => lit n && stmt_immP lit next
+  | Substitute _ next | Op _ _ _ _ next | PrintI64 _ _ next | Let _ _ _ _ next => stmt_immP lit next
+  | IfC _ _ _ t e => stmt_immP lit t && stmt_immP lit e
   | Call _ _ | Exit _ | Invoke _ _ _ _ => true
   | Switch _ _ cls => go cls
-  | Create _ _ _ cls next => go cls && stmt_immP sm lit next
+  | Create _ _ _ cls next => go cls && stmt_immP lit next
   end.
-Definition clauses_immP (sm : N) (lit : Z -> bool) (cls : list clause) : bool :=
-  forallb (fun c => stmt_immP sm lit (cl_body c)) cls.
+Definition clauses_immP (lit : Z -> bool) (cls : list clause) : bool :=
+  forallb (fun c => stmt_immP lit (cl_body c)) cls.
 Definition xtors_le (xm : N) (types : list tydecl) : bool :=
   forallb (fun d => N.leb (N.of_nat (List.length (txtors d))) xm) types.
-Definition imm_guardP (sm xm : N) (lit : Z -> bool) (p : prog) : bool :=
-  forallb (fun d => stmt_immP sm lit (dbody d)) (pdefs p) && xtors_le xm (ptypes p).
+Definition imm_guardP (xm : N) (lit : Z -> bool) (p : prog) : bool :=
+  forallb (fun d => stmt_immP lit (dbody d)) (pdefs p) && xtors_le xm (ptypes p).
 
 (* ---------- a two-weight instruction bound (Proof/SizeCodegenFine.v) ----------
    The recursion of Lang/AxSize.cg_bound with two unit costs: m for every unit of a memory operation (store / load of
@@ -82,11 +81,11 @@ Fixpoint cg_fine_defs (k m : N) (ds : list def) : N :=
 Local Close Scope N_scope.
 
 (* ---------- AArch64 ---------- *)
-Definition A64_SUBST_MAX : N := 4096.
+Definition A64_SUBST_MAX : N := 4096.         (* bound on the copies of one variable, from the capacity: no guard *)
 Definition A64_XTORS_MAX : N := 1024.
 Definition A64_REACH : N := 262143.          (* instructions: 4 * 262143 = 1048572 bytes *)
 Definition any_lit (z : Z) : bool := true.
-Definition imm_guard_a64 (p : prog) : bool := imm_guardP A64_SUBST_MAX A64_XTORS_MAX any_lit p.
+Definition imm_guard_a64 (p : prog) : bool := imm_guardP A64_XTORS_MAX any_lit p.
 (* the routine is shorter than the reach of B.cond / ADR: 28 instructions of the wrapper + the two-weight bound with
    14 instructions per simple unit (the largest: erase_block) and 74 per unit of a memory operation (29 + 15 * 3:
    acquire_block with the three erase_block of a reused block) *)
@@ -102,9 +101,9 @@ Definition wf_guards_a64 (p : prog) : list (string * bool) :=
 Definition wf_guard_a64 (p : prog) : bool := forallb snd (wf_guards_a64 p).
 
 (* ---------- RISC-V ---------- *)
-Definition RV_SUBST_MAX : N := 2048.
+Definition RV_SUBST_MAX : N := 2048.          (* as A64_SUBST_MAX *)
 Definition RV_XTORS_MAX : N := 512.
-Definition imm_guard_rv (p : prog) : bool := imm_guardP RV_SUBST_MAX RV_XTORS_MAX lit64 p.
+Definition imm_guard_rv (p : prog) : bool := imm_guardP RV_XTORS_MAX lit64 p.
 
 Definition wf_guards_rv (p : prog) : list (string * bool) :=
   [("labels-guard", labels_guard p); ("lin-check", lin_check_prog p); ("imm-guard", imm_guard_rv p)]%string.
